@@ -396,7 +396,9 @@ func init() {
 				var hist []histOp
 				var wg sync.WaitGroup
 				stop := make(chan struct{})
+				flusherDone := make(chan struct{})
 				go func() { // flusher + hint dumper
+					defer close(flusherDone)
 					for {
 						select {
 						case <-stop:
@@ -468,10 +470,10 @@ func init() {
 				}
 				wg.Wait()
 				close(stop)
+				<-flusherDone // the background flusher / dumper must be gone before the final reads and the shutdown
 				pk.mu.Lock()
 				pk.yield = 0
 				pk.mu.Unlock()
-				time.Sleep(2 * time.Millisecond)
 				run.hs.VerifWaitIdle()
 				final := map[string]string{}
 				for _, k := range keys {
